@@ -85,6 +85,7 @@ type hsClient struct {
 	Debug      int  // 0 plain Dialer.Upgrade, 1 DebugDialer (both callbacks), 2 OnRequest only, 3 OnResponse only, 4 plain Dialer.Dial
 	Wrap       bool // Dial paths: the application installs its own WrapConn
 	Reuse      bool // DebugDialer: the same value has already been used for an earlier Dial
+	EOFData    bool // the transport hands over the last bytes it has together with io.EOF
 	LiveCtx    bool // Dial paths: the caller's context is a cancellable one that stays alive throughout
 	TLS        bool // wss:// through Dialer.TLSClient: a reversible byte scrambler stands in for the secure layer (Dial paths only)
 	Odd        bool // the extra header has a name net/http refuses (ws.Upgrader hands it to OnHeader like any other)
@@ -507,6 +508,9 @@ func (c hsClient) dialer() ws.Dialer {
 
 // runClient runs the configured dialer on the pipe.
 func runClient(r *eng.Run, c hsClient, p *Pipe) *hsOutcome {
+	if c.EOFData {
+		p.EOFWithData = true
+	}
 	o := runClientConn(r, c, p, func() []byte { return p.Out }, -1)
 	o.Pipe = p
 	o.Consumed = p.Consumed()
@@ -874,6 +878,7 @@ func checkWrappers(r *eng.Run, t *hsTrip) {
 func C11(r *eng.Run) {
 	c, s := drawHS(r)
 	c.LiveCtx = c.Debug != 0 && r.T.Chance(sim.LCfg, 1, 4)
+	c.EOFData = r.T.Chance(sim.LFault, 1, 4)
 	if c.Debug != 0 && r.T.Chance(sim.LCfg, 1, 4) {
 		c.TLS = true
 		c.URL = "wss" + strings.TrimPrefix(c.URL, "ws")
